@@ -346,12 +346,16 @@ class Check:
         return 0
 
 
-def read_ndjson(path):
-    with open(path, "r", encoding="utf8") as f:
+def read_ndjson(path, tolerant=False):
+    with open(path, "r", encoding="utf8", errors="replace") as f:
         for line in f:
             line = line.strip()
             if line:
-                yield json.loads(line)
+                try:
+                    yield json.loads(line)
+                except ValueError:
+                    if not tolerant:      # a truncated last line of a process that died
+                        raise
 
 
 def write_ndjson(path, rows):
@@ -450,6 +454,40 @@ def trace_validate_parallel(chk, module, cfg, rows, parts=8, timeout=3000, xmx="
             chk.add_tlc(r)
             bad += b
     return bad
+
+
+def vh_resumable(args, total, out_path, timeout=3000):
+    """Run a harness command that prints {"begin": k} before item k; when the process dies (stack overflow, abort) or
+    hangs on an item, record {"died": k, ...begin fields} for it and restart at k + 1. Returns the rows."""
+    rows = []
+    start = 0
+    while start < total:
+        tmp = out_path + ".part"
+        try:
+            p = vh(args + ["--start", start], stdout_path=tmp, timeout=timeout, check=False)
+            rc = p.returncode
+        except ToolError:
+            rc = -999
+        last_begin = None
+        pending = None
+        for row in read_ndjson(tmp, tolerant=True):
+            if "begin" in row:
+                last_begin = row
+                pending = row
+                continue
+            pending = None
+            rows.append(row)
+        if rc == 0:
+            break
+        if last_begin is None:
+            raise ToolError("%s died (rc=%s) before its first item" % (args[0], rc))
+        if pending is not None:
+            d = dict(pending)
+            d["died"] = d.pop("begin")
+            d["rc"] = rc
+            rows.append(d)
+        start = last_begin["begin"] + 1
+    return rows
 
 
 def canary_replay(chk, cmd, case, what):
